@@ -57,6 +57,7 @@ func C15(tier string) int {
 		k2 := newKitchen("parent+children+indexes+fk+pets+links", kFeat{orgs: true, pets: true, places: true})
 		runE1(rep, k2, explore.Config{Programs: explore.SingleOps(len(k2.Ops())), MaxTrans: 8_000_000})
 	}
+	c15Views(rep, tier)
 	// what the parent store refuses, the child stores refuse too: a set element too large to be stored is rejected
 	// whichever store the entity comes through (the parent part of a child entity is persisted through a derived
 	// persist context, which must report its failures)
